@@ -117,7 +117,8 @@ public:
 
 	// If we use pass by value idiom and omit the 'this' check,
 	// when assigning to self there is a deep copy which is inefficient.
-	HeterCallbackListBase & operator = (const HeterCallbackListBase & other) noexcept
+	// Not noexcept: copying the callbacks may throw (allocation, or a throwing copy of a callback).
+	HeterCallbackListBase & operator = (const HeterCallbackListBase & other)
 	{
 		if(this != &other) {
 			HeterCallbackListBase copied(other);
